@@ -367,3 +367,54 @@ def extraction_always_writes(F, fn, label, _depth=2):
     if on_every_returning_path(fn, ids):
         return [ok("R-MUSTCALL", inst, fn.loc(ids[0]), fn.qn, req, "%d creating site(s) cover every returning path" % len(ids))]
     return [bad("R-MUSTCALL", inst, fn.loc(fn.body), fn.qn, req, "a path returns without creating the output file (an early return before the FileWriter is constructed)")]
+
+
+# ------------------------------------------------------------------------------------------
+def noexcept_honest(F, S, scope, functions=None):
+    """R-NOEXCEPT: a function declared noexcept contains no reachable refusal - no `throw` of its own outside a handler-protected
+    region and no call of a repository function that may throw. (A refusal inside a noexcept function is std::terminate, not
+    the ordinary error the properties promise.) `scope`: substrings of source paths to sweep. Returns (obligations, count)."""
+    out = []
+    n = 0
+    for fn in sorted(functions if functions is not None else F.functions.values(), key=lambda f: f.key):
+        if not fn.cfg or not fn.d.get("noexcept") or fn.d.get("implicit") or fn.name.startswith("~") or (functions is None and not any(x in fn.file for x in scope)):
+            continue
+        n += 1
+        guarded = set()
+        for nd in fn.nodes:
+            if nd["k"] == "CXXTryStmt":
+                guarded |= set(fn.subtree(nd.get("try", nd["id"])))
+        why = None
+        for nd in fn.nodes:
+            if nd["id"] in guarded:
+                continue
+            if nd["k"] == "CXXThrowExpr":
+                why = (nd, "throws")
+                break
+            if nd["k"] in CALLS or nd["k"] in CTORS:
+                cals = list(F.callees(nd))
+                if not cals and functions is not None and nd.get("fn") in F.fixture_functions:
+                    cals = [F.fixture_functions[nd["fn"]]]          # fixtures call fixtures
+                for cal in cals:
+                    if not cal.d.get("noexcept") and S.may_throw(cal):
+                        why = (nd, "calls %s, which may throw" % cal.qn.split("::")[-1])
+                        break
+            if why:
+                break
+        inst = "%s#noexcept" % fn.key
+        req = "a function declared noexcept refuses nothing: no throw and no call of a throwing repository function outside a try block"
+        if why is None:
+            out.append(ok("R-NOEXCEPT", inst, fn.loc(fn.body), fn.qn, req, "no reachable refusal", nontrivial=False))
+        else:
+            out.append(bad("R-NOEXCEPT", inst, fn.loc(why[0]["id"]), fn.qn, req, "%s at %s: the refusal ends in std::terminate instead of an error" % (why[1], fn.loc(why[0]["id"]))))
+    return out, n
+
+
+def noexcept_obligations(F, S, run):
+    """noexcept_honest over the whole library plus its positive fixture, registered on `run`."""
+    o, n = noexcept_honest(F, S, ["/src/"])
+    run.add(o)
+    run.floor("noexcept-functions", n, 4)
+    fx = [f for f in F.fixture_functions.values() if f.qn == "fixture::Nodes::IsLast"]
+    hit = bool(fx) and any(x.status == "violated" for x in noexcept_honest(F, S, [], functions=fx)[0])
+    run.fixture("fixtures/raw_read.cpp: a noexcept accessor that calls a throwing verifier is reported by R-NOEXCEPT", hit)
